@@ -144,6 +144,8 @@ def search(chk, broken):
     K = 0.076474 * math.pi / (8 * 144)
     evals = 0
     for name, table in tabs:
+        if chk.over():
+            break
         rows = [(float(p['Mach']), float(p['CD'])) for p in table]
         n = len(rows)
         bc = rng.uniform(0.1, 1.0)
